@@ -234,6 +234,35 @@ M("c20-error-node-posnext", "C20", "src/ckl/parser.py",
   "error statement stamped with the position of the following token")
 
 
+# ---- C09
+M("c09-filedelete-secure", "C09", "src/ckl/functions.py",
+  '''            ["file_delete(filename)", "", "Deletes the specified file."]
+        )
+        self.secure = False''', '''            ["file_delete(filename)", "", "Deletes the specified file."]
+        )''', "file_delete no longer marked insecure")
+M("c09-run-always", "C09", "src/ckl/interpreter.py",
+  '''        if not secure:
+            self.base_environment.put("run", FuncRun(self))''',
+  '''        self.base_environment.put("run", FuncRun(self))''',
+  "run registered in secure interpreters too")
+M("c09-session-flag", "C09", "src/ckl/functions.py",
+  '''        environment.getBase().get("checkerlang_secure_mode").value
+        and not func.secure''',
+  '''        environment.get("checkerlang_secure_mode").value
+        and not func.secure''', "binder honours a shadowing flag definition")
+M("c09-alias-before-guard", "C09", "src/ckl/functions.py",
+  '''def bind_native_fun(environment, func, alias=None):
+    if (''', '''def bind_native_fun(environment, func, alias=None):
+    if alias is not None:
+        environment.put(alias, func)
+    if (''', "alias bound before the secure-mode guard")
+M("c09-listdir-secure", "C09", "src/ckl/functions.py",
+  '''    elif native == "list_dir":
+        bind_native_fun(environment, FuncListDir())''',
+  '''    elif native == "list_dir":
+        add(environment, FuncListDir())''', "list_dir bound without the guard")
+
+
 def run(cmd, cwd, env=None, timeout=3600):
     t0 = time.time()
     try:
